@@ -621,7 +621,11 @@ impl<'a> Run<'a> {
       }
     }
     if unreceived > slack {
-      fail!("C04", sig(self.s, form, "disconnected_before_drained"), "reported Disconnected while {} value(s) whose send reported Ok are unreceived ({} could be held by other pending receives)", unreceived, slack);
+      // the same fact breaks C01: "each value whose send reports success is returned by exactly one
+      // successful receive provided some receiver keeps receiving until it observes Disconnected"
+      // — this receiver did, and the value is still unreceived; under the C01 check it is reported as C01
+      let dp = if crate::current_property() == "C01" { "C01" } else { "C04" };
+      fail!(dp, sig(self.s, form, "disconnected_before_drained"), "reported Disconnected while {} value(s) whose send reported Ok are unreceived ({} could be held by other pending receives)", unreceived, slack);
     }
     Ok(())
   }
